@@ -167,6 +167,19 @@ def cases(ctx):
         B = {"version": 1, "subject": "CN=%s, O=Org" % b64txt, "serialNumber": 81}
         pair(A, B, "edit", "binary subject value #%s -> text %s" % (hx, b64txt))
         pair(A, copy.deepcopy(A), "equal", "binary subject value #%s: another file name" % hx, pb="z/b.yml")
+        # ... and so are the other texts a binary value could be mistaken for: how the octets print as a list of numbers, their hex
+        # digits, the characters inside, the value written as text with the `#` in another attribute; and another binary value
+        raw = bytes.fromhex(hx)
+        texts = {"number list": "[%s]" % " ".join(str(x) for x in raw), "hex digits": hx, "inner characters": raw[2:].decode("latin-1").replace("\x00", ""),
+                 "upper-case hex": hx.upper() + " "}
+        for what, txt in texts.items():
+            for attr in ("CN", "O", "1.2.3.4"):
+                A2 = {"version": 1, "subject": "C=DE, %s=#%s" % (attr, hx), "serialNumber": 82}
+                B2 = {"version": 1, "subject": "C=DE, %s=%s" % (attr, txt.strip()), "serialNumber": 82}
+                pair(A2, B2, "edit", "binary %s value #%s -> text (%s) %s" % (attr, hx, what, txt.strip()))
+        pair(A, {"version": 1, "subject": "CN=#%s, O=Org" % (hx[:-2] + "45"), "serialNumber": 81}, "edit", "binary subject value #%s: last octet changed" % hx)
+        if hx[:2] != "1e":      # (two-octet characters read as PrintableString would hold NUL characters: not a value gopki encodes)
+            pair(A, {"version": 1, "subject": "CN=#%s, O=Org" % ("13" + hx[2:]), "serialNumber": 81}, "edit", "binary subject value #%s: tag octet changed" % hx)
     # seeded double edits (thorough): two single-field edits applied together, judged by the same rule
     if not ctx.quick:
         r = random.Random(ctx.seed)
